@@ -270,6 +270,7 @@ def main():
     known = C.known_findings(pid)
     viol = 0
     known_hit = {}
+    seen_sig = {}
     os.makedirs(os.path.join(C.VERIF, 'replays'), exist_ok=True)
     for n, f in enumerate(failures):
         k = next((e for e in known if e['signature'] == f.get('signature')), None)
@@ -278,8 +279,10 @@ def main():
             known_hit[k['signature']] = (k, known_hit[k['signature']][1] + 1)
             continue
         viol += 1
-        if viol > 5:
-            continue
+        sigkey = (f.get('signature'), f.get('observable'))
+        seen_sig[sigkey] = seen_sig.get(sigkey, 0) + 1
+        if seen_sig[sigkey] > 1 or len(seen_sig) > 8:
+            continue        # one replay per class of failure
         path = os.path.join('replays', '%s-%d-%d.json' % (pid, seed, n))
         C.write_json(os.path.join(C.VERIF, path), {'property': pid, 'seed': seed, 'tier': tier, **f})
         tail = ' no-failing-input-found' if f.get('nofail') else ''
